@@ -233,7 +233,7 @@ func (g *genCtx) item(class string) Item {
 		num := pick(r, []string{"0", "2", "6", "7", "1", "4", "10", "52", "104", "", "00", "8", "99999999999999999999"})
 		payload := g.text(r.intn(8), true, false)
 		if r.chance(1, 4) {
-			payload = append(payload, pick(r, [][]byte{[]byte("✜"), []byte("Ü"), []byte("œ"), {27, 'x'}, []byte(";a;b"), []byte("\\"), {0xc2, 0x9c}})...)
+			payload = append(payload, pick(r, [][]byte{[]byte("✜"), []byte("Ü"), []byte("œ"), []byte("🌜"), []byte("😜x"), []byte("𐀜"), {27, 'x'}, []byte(";a;b"), []byte("\\"), {0xc2, 0x9c}})...)
 		}
 		term := pick(r, [][]byte{{7}, {27, '\\'}, {7}, {0x9c}})
 		b := append([]byte("\x1b]"+num+";"), payload...)
@@ -247,7 +247,7 @@ func (g *genCtx) item(class string) Item {
 	case "dcs":
 		payload := g.text(r.intn(8), true, false)
 		if r.chance(1, 3) {
-			payload = append(payload, pick(r, [][]byte{[]byte("✜"), {7}, {27, 'x'}, []byte("$q"), {10}})...)
+			payload = append(payload, pick(r, [][]byte{[]byte("✜"), []byte("🌜"), []byte("😜q"), []byte("Ü"), {7}, {27, 'x'}, []byte("$q"), {10}})...)
 		}
 		term := pick(r, [][]byte{{27, '\\'}, {0x9c}})
 		return in(class, append(append([]byte("\x1bP"), payload...), term...))
@@ -275,6 +275,124 @@ func (g *genCtx) item(class string) Item {
 	panic("unknown class " + class)
 }
 
+// macro: a short scripted scenario (several items) aimed at interactions that random
+// single items rarely line up: state surviving a resize, cursor outside the scroll region,
+// state kept per buffer across a round trip, wide characters at row edges, autowrap corners.
+func (g *genCtx) macro(name string) []Item {
+	r := g.r
+	var out []Item
+	add := func(class string, s string) { out = append(out, in(class, []byte(s))) }
+	goTo := func(y, x int) { add("goto", fmt.Sprintf("\x1b[%d;%dH", y+1, x+1)) }
+	afterwards := func() {
+		for k, n := 0, 1+r.intn(4); k < n; k++ {
+			out = append(out, g.item(pick(r, []string{"text", "textwide", "erase", "lf", "index", "scroll", "c0", "cursor", "textlong"})))
+		}
+	}
+	switch name {
+	case "save-resize-restore":
+		goTo(r.intn(g.h), r.intn(g.w))
+		if r.chance(1, 2) {
+			out = append(out, g.item("margins"))
+		}
+		add("cursor", "\x1b[s")
+		if r.chance(1, 2) {
+			goTo(r.intn(g.h), r.intn(g.w))
+		}
+		w, h := 1+r.intn(g.w), 1+r.intn(g.h)
+		if r.chance(1, 4) {
+			w, h = g.sizePick()
+		}
+		g.w, g.h = w, h
+		out = append(out, Item{Kind: "resize", W: w, H: h})
+		if r.chance(2, 3) {
+			add("cursor", "\x1b[u")
+		}
+		afterwards()
+	case "outside-region":
+		t := r.intn(g.h)
+		b := t + r.intn(g.h-t)
+		add("margins", fmt.Sprintf("\x1b[%d;%dr", t+1, b+1))
+		if r.chance(1, 2) {
+			add("wrap", "\x1b[?7h")
+		}
+		y := r.intn(g.h)
+		switch r.intn(4) {
+		case 0:
+			y = b
+		case 1:
+			y = t
+		case 2:
+			if b+1 < g.h {
+				y = b + 1 + r.intn(g.h-b-1)
+			}
+		}
+		goTo(y, pick(r, []int{0, g.w - 1, r.intn(g.w)}))
+		for k, n := 0, 1+r.intn(4); k < n; k++ {
+			out = append(out, g.item(pick(r, []string{"lf", "index", "textlong", "textwide", "scroll", "c0", "text"})))
+		}
+	case "alt-roundtrip":
+		pre := []string{"kbd", "sgr", "goto", "margins", "wrap", "text", "cursor"}
+		for k, n := 0, 1+r.intn(3); k < n; k++ {
+			out = append(out, g.item(pick(r, pre)))
+		}
+		add("altscreen", "\x1b[?1049h")
+		for k, n := 0, 1+r.intn(4); k < n; k++ {
+			out = append(out, g.item(pick(r, pre)))
+		}
+		add("altscreen", "\x1b[?1049l")
+		if r.chance(1, 2) {
+			out = append(out, g.item(pick(r, pre)))
+			add("altscreen", "\x1b[?1049h")
+		}
+		for k, n := 0, 1+r.intn(3); k < n; k++ {
+			out = append(out, g.item(pick(r, []string{"query", "kbd", "text", "lf", "cursor"})))
+		}
+	case "wide-edges":
+		y := r.intn(g.h)
+		if r.chance(1, 2) {
+			out = append(out, g.item("sgr"))
+		}
+		// wide characters in the last columns / a row of wide characters
+		if g.w >= 2 {
+			goTo(y, g.w-2-r.intn(2)%g.w)
+			add("textwide", pick(r, wideRunes))
+			goTo(y, r.intn(g.w))
+			add("textwide", pick(r, wideRunes)+pick(r, wideRunes))
+		}
+		if r.chance(1, 2) {
+			out = append(out, g.item("sgr"))
+		}
+		// touch cells next to / inside them
+		for k, n := 0, 1+r.intn(4); k < n; k++ {
+			goTo(y, pick(r, []int{g.w - 1, g.w - 2, g.w - 3, r.intn(g.w), 0, 1}))
+			out = append(out, g.item(pick(r, []string{"textwide", "text", "erase", "erase", "textwide"})))
+		}
+	case "autowrap-corners":
+		add("wrap", "\x1b[?7h")
+		if r.chance(1, 2) {
+			out = append(out, g.item("margins"))
+		}
+		goTo(pick(r, []int{g.h - 1, r.intn(g.h), 0}), pick(r, []int{0, g.w - 1, g.w - 2}))
+		for k, n := 0, 2+r.intn(4); k < n; k++ {
+			switch r.intn(6) {
+			case 0:
+				add("c0", "\x08")
+			case 1:
+				add("c0", "\r")
+			case 2:
+				add("textwide", pick(r, wideRunes))
+			case 3:
+				goTo(r.intn(g.h), pick(r, []int{0, g.w - 1}))
+			default:
+				out = append(out, g.item(pick(r, []string{"text", "textlong", "c0", "cursor"})))
+			}
+		}
+	}
+	return out
+}
+
+var macroNames = []string{"save-resize-restore", "outside-region", "alt-roundtrip", "wide-edges", "autowrap-corners"}
+
 func (g *genCtx) sizePick() (int, int) {
 	r := g.r
 	switch r.intn(12) {
@@ -298,14 +416,16 @@ func (g *genCtx) sizePick() (int, int) {
 // ---------------------------------------------------------------- profiles
 
 type profile struct {
-	name    string
-	weights map[string]int
-	minLen  int
-	maxLen  int
-	grid    int // percent of cases on the grid buffer
-	gmode   int // percent of cases in grapheme mode
-	chunks  []int
-	sizes   func(g *genCtx) (int, int)
+	name     string
+	weights  map[string]int
+	minLen   int
+	maxLen   int
+	grid     int // percent of cases on the grid buffer
+	gmode    int // percent of cases in grapheme mode
+	chunks   []int
+	sizes    func(g *genCtx) (int, int)
+	macros   int      // percent of positions filled by a macro scenario
+	macroSet []string // which macros (nil = all)
 }
 
 func smallSizes(g *genCtx) (int, int) {
@@ -338,34 +458,34 @@ func withWeights(over map[string]int) map[string]int {
 }
 
 var profiles = map[string]*profile{
-	"general": {name: "general", weights: withWeights(map[string]int{"resize": 2}), minLen: 4, maxLen: 40, grid: 25, chunks: []int{0, 0, 1, 3}},
-	"C01": {name: "C01", weights: withWeights(map[string]int{"resize": 8, "badutf8": 6, "cursor": 16, "scroll": 12, "margins": 8, "erase": 12, "manyparams": 3, "oddcsi": 4, "textzero": 4}),
+	"general": {name: "general", macros: 6, weights: withWeights(map[string]int{"resize": 2}), minLen: 4, maxLen: 40, grid: 25, chunks: []int{0, 0, 1, 3}},
+	"C01": {name: "C01", macros: 8, weights: withWeights(map[string]int{"resize": 8, "badutf8": 6, "cursor": 16, "scroll": 12, "margins": 8, "erase": 12, "manyparams": 3, "oddcsi": 4, "textzero": 4}),
 		minLen: 4, maxLen: 60, grid: 30, chunks: []int{0, 1, 2, 3}, sizes: func(g *genCtx) (int, int) { return g.sizePick() }},
-	"C02": {name: "C02", weights: withWeights(map[string]int{"resize": 5, "textwide": 20, "goto": 20, "erase": 14, "sgr": 10, "badutf8": 3}),
+	"C02": {name: "C02", macros: 8, weights: withWeights(map[string]int{"resize": 5, "textwide": 20, "goto": 20, "erase": 14, "sgr": 10, "badutf8": 3}),
 		minLen: 6, maxLen: 50, grid: 25, chunks: []int{0, 1, 3}},
-	"C03": {name: "C03", weights: map[string]int{"text": 30, "textwide": 20, "textlong": 15, "goto": 14, "wrap": 8, "cursor": 6, "sgr": 5, "crlf": 4, "margins": 2, "badutf8": 3, "c0": 3},
+	"C03": {name: "C03", macros: 8, macroSet: []string{"wide-edges", "autowrap-corners", "outside-region"}, weights: map[string]int{"text": 30, "textwide": 20, "textlong": 15, "goto": 14, "wrap": 8, "cursor": 6, "sgr": 5, "crlf": 4, "margins": 2, "badutf8": 3, "c0": 3},
 		minLen: 4, maxLen: 40, grid: 30, chunks: []int{0, 1, 3}},
-	"C04": {name: "C04", weights: map[string]int{"cursor": 40, "c0": 15, "index": 12, "goto": 6, "margins": 8, "text": 10, "textwide": 3, "wrap": 3, "lf": 5, "crlf": 3},
+	"C04": {name: "C04", macros: 8, macroSet: []string{"outside-region", "autowrap-corners", "save-resize-restore"}, weights: map[string]int{"cursor": 40, "c0": 15, "index": 12, "goto": 6, "margins": 8, "text": 10, "textwide": 3, "wrap": 3, "lf": 5, "crlf": 3},
 		minLen: 4, maxLen: 40, grid: 30, chunks: []int{0, 1}},
-	"C05": {name: "C05", weights: map[string]int{"erase": 35, "goto": 20, "text": 15, "textwide": 15, "textlong": 6, "sgr": 8, "wrap": 2, "crlf": 3},
+	"C05": {name: "C05", macros: 8, macroSet: []string{"wide-edges"}, weights: map[string]int{"erase": 35, "goto": 20, "text": 15, "textwide": 15, "textlong": 6, "sgr": 8, "wrap": 2, "crlf": 3},
 		minLen: 5, maxLen: 40, grid: 30, chunks: []int{0, 1}},
-	"C06": {name: "C06", weights: map[string]int{"scroll": 25, "margins": 14, "index": 14, "lf": 8, "goto": 12, "text": 12, "textwide": 5, "textlong": 6, "wrap": 4, "sgr": 4, "crlf": 4},
+	"C06": {name: "C06", macros: 10, macroSet: []string{"outside-region", "autowrap-corners"}, weights: map[string]int{"scroll": 25, "margins": 14, "index": 14, "lf": 8, "goto": 12, "text": 12, "textwide": 5, "textlong": 6, "wrap": 4, "sgr": 4, "crlf": 4},
 		minLen: 5, maxLen: 40, grid: 30, chunks: []int{0, 1}},
-	"C07": {name: "C07", weights: map[string]int{"sgr": 40, "text": 20, "textwide": 6, "erase": 12, "goto": 10, "scroll": 3, "manyparams": 3, "crlf": 3},
+	"C07": {name: "C07", macros: 4, macroSet: []string{"wide-edges"}, weights: map[string]int{"sgr": 40, "text": 20, "textwide": 6, "erase": 12, "goto": 10, "scroll": 3, "manyparams": 3, "crlf": 3},
 		minLen: 5, maxLen: 40, grid: 30, chunks: []int{0, 1}},
 	"C09": {name: "C09", weights: map[string]int{"oddcsi": 25, "esc": 15, "osc": 15, "dcs": 10, "text": 20, "textwide": 4, "manyparams": 4, "sgr": 3, "cursor": 4, "query": 3, "mode": 3, "kbd": 3},
 		minLen: 3, maxLen: 30, grid: 10, chunks: []int{0, 1, 2, 3}},
-	"C10": {name: "C10", weights: withWeights(map[string]int{"altscreen": 6, "scroll": 10, "index": 8, "textwide": 15, "lf": 8}),
+	"C10": {name: "C10", macros: 8, weights: withWeights(map[string]int{"altscreen": 6, "scroll": 10, "index": 8, "textwide": 15, "lf": 8}),
 		minLen: 5, maxLen: 50, grid: 30, chunks: []int{0, 1}},
-	"C14": {name: "C14", weights: withWeights(map[string]int{"query": 25, "kbd": 8, "altscreen": 4, "goto": 14, "resize": 3}),
+	"C14": {name: "C14", macros: 8, macroSet: []string{"alt-roundtrip", "save-resize-restore"}, weights: withWeights(map[string]int{"query": 25, "kbd": 8, "altscreen": 4, "goto": 14, "resize": 3}),
 		minLen: 4, maxLen: 40, grid: 20, chunks: []int{0, 1, 3}},
-	"C17": {name: "C17", weights: map[string]int{"mode": 30, "altscreen": 15, "text": 15, "textwide": 4, "goto": 8, "kbd": 8, "margins": 5, "wrap": 6, "sgr": 4, "erase": 4, "scroll": 3, "lf": 4},
+	"C17": {name: "C17", macros: 12, macroSet: []string{"alt-roundtrip"}, weights: map[string]int{"mode": 30, "altscreen": 15, "text": 15, "textwide": 4, "goto": 8, "kbd": 8, "margins": 5, "wrap": 6, "sgr": 4, "erase": 4, "scroll": 3, "lf": 4},
 		minLen: 5, maxLen: 40, grid: 20, chunks: []int{0, 1}},
-	"C18": {name: "C18", weights: withWeights(map[string]int{"resize": 20, "textwide": 15, "textlong": 12, "margins": 8, "cursor": 12, "altscreen": 3}),
+	"C18": {name: "C18", macros: 10, macroSet: []string{"save-resize-restore", "wide-edges"}, weights: withWeights(map[string]int{"resize": 20, "textwide": 15, "textlong": 12, "margins": 8, "cursor": 12, "altscreen": 3}),
 		minLen: 5, maxLen: 40, grid: 30, chunks: []int{0, 1}, sizes: func(g *genCtx) (int, int) { return g.sizePick() }},
-	"C19": {name: "C19", weights: map[string]int{"kbd": 70, "altscreen": 10, "text": 5, "mode": 5, "query": 5},
+	"C19": {name: "C19", macros: 10, macroSet: []string{"alt-roundtrip"}, weights: map[string]int{"kbd": 70, "altscreen": 10, "text": 5, "mode": 5, "query": 5},
 		minLen: 5, maxLen: 80, grid: 5, chunks: []int{0, 1}},
-	"C20": {name: "C20", weights: withWeights(map[string]int{"textwide": 12}), minLen: 5, maxLen: 40, grid: 100, chunks: []int{0, 1}},
+	"C20": {name: "C20", macros: 8, weights: withWeights(map[string]int{"textwide": 12}), minLen: 5, maxLen: 40, grid: 100, chunks: []int{0, 1}},
 }
 
 func genCase(p *profile, r *prng) Case {
@@ -394,6 +514,14 @@ func genCase(p *profile, r *prng) Case {
 	}
 	n := p.minLen + r.intn(p.maxLen-p.minLen+1)
 	for i := 0; i < n; i++ {
+		if p.macros > 0 && r.intn(100) < p.macros {
+			ms := p.macroSet
+			if ms == nil {
+				ms = macroNames
+			}
+			c.Items = append(c.Items, g.macro(pick(r, ms))...)
+			continue
+		}
 		x := r.intn(total)
 		for _, k := range classes {
 			x -= p.weights[k]
